@@ -22,6 +22,7 @@ RULE = (
     "Non-trivial = >=2 iterations AND (a floor/cap option set OR log-weight spread > 1000 OR fixed n_steps "
     "whose repeated float addition of 1/n does not land exactly on 1.0); distinct = distinct case hash."
 )
+RULE += " " + ('Also generated: a third of the API runs ask for another output namespace; a quarter of the base-signature runs first complete an unrelated run (other schedule / target) on the same sampler object.')
 ASSUMPTIONS = [
     "kernel packages minipcn/orng are harness doubles (pbt/doubles); aspire's loop, schedule, resampling and mutate code run unmodified",
     "termination is decided by a ranking argument: every iteration must raise beta by >= beta_tolerance/2 (or the floor); "
